@@ -438,10 +438,6 @@ theorem slots_mem {i : Nat} {xs : List Ins} {ms : List Smp} (h : SlotsOk i xs ms
 /-! ## sample bodies -/
 
 /-- no sample body, as it lies in the file (followed by the later bodies), begins with "ADPCM" -/
-def NoAdpcm : List Smp → Prop
-  | [] => True
-  | m :: ms => (m.len ≠ 0 → ((m :: ms).flatMap (·.pcm)).take 5 ≠ adpcmTag) ∧ NoAdpcm ms
-
 theorem decSmps_flat (ms : List Smp) (h1 : ∀ m ∈ ms, m.pcm.length = m.len) (h2 : NoAdpcm ms) :
     decSmps (ms.map fun m => { m with pcm := [] }) (ms.flatMap (·.pcm)) = some ms := by
   induction ms with
@@ -458,14 +454,7 @@ theorem decSmps_flat (ms : List Smp) (h1 : ∀ m ∈ ms, m.pcm.length = m.len) (
     · rw [if_neg hz, if_neg (by simpa using ha hz), takeN_append _ hl]
       simp only [ih, Option.map_some]
 
-def NoAdpcm.dec : (ms : List Smp) → Decidable (NoAdpcm ms)
-  | [] => isTrue trivial
-  | m :: ms => by
-    unfold NoAdpcm
-    have := NoAdpcm.dec ms
-    infer_instance
 
-instance (ms : List Smp) : Decidable (NoAdpcm ms) := NoAdpcm.dec ms
 
 theorem noAdpcm_of_forall (ms : List Smp)
     (h : ∀ m ∈ ms, m.len ≠ 0 → 5 ≤ m.pcm.length ∧ m.pcm.take 5 ≠ adpcmTag) : NoAdpcm ms := by
